@@ -9,70 +9,15 @@ package main
 // interleaving the Coq model (Conc/QueueLock.v exec_sched) is run with.
 
 import (
-	"bytes"
 	"context"
 	"encoding/json"
 	"fmt"
-	"runtime"
-	"strconv"
 	"strings"
 	"sync"
 	"time"
 
 	am "github.com/pancsta/asyncmachine-go/pkg/machine"
 )
-
-func goid() int {
-	var buf [64]byte
-	n := runtime.Stack(buf[:], false)
-	f := bytes.Fields(buf[:n])
-	id, _ := strconv.Atoi(string(f[1]))
-	return id
-}
-
-type gateEvent struct {
-	worker int
-	point  string // "" = worker finished
-}
-
-// Gate serialises registered worker goroutines at schedule points.
-type Gate struct {
-	mu      sync.Mutex
-	workers map[int]int // goroutine id -> worker index
-	events  chan gateEvent
-	resume  []chan struct{}
-}
-
-func NewGate(n int) *Gate {
-	g := &Gate{workers: map[int]int{}, events: make(chan gateEvent, 4*n+16)}
-	for i := 0; i < n; i++ {
-		g.resume = append(g.resume, make(chan struct{}))
-	}
-	return g
-}
-
-// Point is the verifPoint callback.
-func (g *Gate) Point(point string) {
-	g.mu.Lock()
-	w, ok := g.workers[goid()]
-	g.mu.Unlock()
-	if !ok {
-		return // not a gated goroutine (e.g. the machine's handler loop)
-	}
-	g.events <- gateEvent{w, point}
-	<-g.resume[w]
-}
-
-// Go starts worker w; it parks at its first schedule point.
-func (g *Gate) Go(w int, fn func()) {
-	go func() {
-		g.mu.Lock()
-		g.workers[goid()] = w
-		g.mu.Unlock()
-		fn()
-		g.events <- gateEvent{w, ""}
-	}()
-}
 
 type C04Input struct {
 	Muts     [][]int `json:"muts"`     // per thread: [own state, nested states...]
